@@ -24,6 +24,10 @@ enum Op {
     Commit(u8),
     Abort(u8),
     GcAuto,
+    /// gc_versions(current_version): an explicit collection at the newest version, possibly above the
+    /// begin version of a transaction that is still active — it may retire finished transactions and
+    /// prune history, it must not change what a later commit decides
+    GcNow,
 }
 
 #[derive(Clone, Debug, PartialEq, Eq, Hash)]
@@ -146,6 +150,7 @@ impl Model for M {
             }
         }
         v.push(Op::GcAuto);
+        v.push(Op::GcNow);
         v
     }
     fn apply(&self, st: &mut St, op: &Op, check: bool) -> Step {
@@ -292,6 +297,16 @@ impl Model for M {
                     }
                 }
             }
+            Op::GcNow => {
+                let at = g.current_version;
+                match guarded(|| g.gc_versions(at)) {
+                    Ok((n, e)) => outcome = if n + e > 0 { "pruned".into() } else { "nothing".into() },
+                    Err(p) => {
+                        vio.push(("panic:gc_versions".into(), format!("gc_versions({at}) panicked: {p}")));
+                        outcome = "panic".into();
+                    }
+                }
+            }
             Op::GcAuto => match guarded(|| g.gc_auto()) {
                 Ok((n, e)) => outcome = if n + e > 0 { "pruned".into() } else { "nothing".into() },
                 Err(p) => {
@@ -379,7 +394,7 @@ impl Model for M {
 }
 
 fn alphabet(ntx: usize) -> String {
-    format!("per transaction t in 0..{ntx}: begin(RC|SI), write(node a|node b|edge e) = txn_write_* + property write p:=current version, commit, abort (commit/abort also on finished transactions); gc_auto at every point")
+    format!("per transaction t in 0..{ntx}: begin(RC|SI), write(node a|node b|edge e) = txn_write_* + property write p:=current version, commit, abort (commit/abort also on finished transactions); gc_auto and gc_versions(current_version) at every point")
 }
 
 fn main() {
@@ -413,7 +428,7 @@ fn main() {
         ctx.cov(
             "commit_outcomes",
             json!({"committed": oc("Commit", "committed"), "refused_conflict": oc("Commit", "refused:conflict"), "refused_finished": oc("Commit", "refused:finished"),
-                   "abort_ok": oc("Abort", "aborted"), "abort_refused_finished": oc("Abort", "refused:finished"), "gc_pruned": oc("GcAuto", "pruned")}),
+                   "abort_ok": oc("Abort", "aborted"), "abort_refused_finished": oc("Abort", "refused:finished"), "gc_pruned": oc("GcAuto", "pruned"), "gc_now_pruned": oc("GcNow", "pruned")}),
         );
         // measure how often SI and RC prescriptions differ observably on the explored states
         // (cheap re-walk of a bounded prefix of the space: depth <= 7)
@@ -433,7 +448,7 @@ fn main() {
                     }
                     if h.len() < 6 {
                         for op in m3.ops(&st) {
-                            if matches!(op, Op::GcAuto) {
+                            if matches!(op, Op::GcAuto | Op::GcNow) {
                                 continue;
                             }
                             let mut h2 = h.clone();
